@@ -167,7 +167,18 @@ impl NodeDrive {
                             value.key_disk_addr,
                         );
                     } else {
-                        log::debug!("To reclame_space nothing need to be done on delete");
+                        // The new key file has no record for this key: forget the tombstone, its
+                        // key_disk_addr points into the file that was just replaced and the next
+                        // incremental snapshot would write "deleted" at that stale offset
+                        log::debug!("To reclame_space the deleted key is only dropped from memory");
+                        let mut map = db.map.write().expect("Error getting the db.map.write");
+                        let still_deleted = match map.get(&key) {
+                            Some(current) => current.state == ValueStatus::Deleted,
+                            None => false,
+                        };
+                        if still_deleted {
+                            map.remove(&key);
+                        }
                     }
                 }
             }
